@@ -2,7 +2,7 @@
 repo test files, generated well-formed archives of all five formats, and damaged variants; plus fault-plan expansion."""
 import os, glob, random, struct
 import vlib
-from vlib import scenario, gen, cabfmt, chmfmt, kwajfmt, oabfmt, qtmenc
+from vlib import scenario, gen, cabfmt, chmfmt, kwajfmt, oabfmt, qtmenc, lzxenc
 
 REPO_CAB = os.path.join(vlib.REPO, "libmspack", "test", "test_files", "cabd")
 REPO_CHM = os.path.join(vlib.REPO, "libmspack", "test", "test_files", "chmd")
@@ -309,6 +309,14 @@ def uninit_cases(rng, n):
         frames = []; stream, _ = qtmenc.encode(rng, wb, total, frames=frames, early=True)
         cab = cabfmt.build_cab([(2 | (wb << 8), [(f, min(32768, total - 32768 * k)) for k, f in enumerate(frames)])], [(b"q.bin", total, 0, 0, 0x5A21, 0x6C43, 0x20)])
         sc = scenario.Scn().file("in0.cab", cab); cab_ops(sc, 1, 4); out.append(Case("uninit:qtm-early-match", "cab", sc))
+    for i in range(n):
+        # LZX: among the first tokens a match whose offset exceeds the bytes decoded so far (the window is not cleared by lzxd_init)
+        wb = rng.choice([15, 16, 17]); total = rng.choice([40, 600])
+        for _ in range(20):
+            stream, _ = lzxenc.encode(rng, wb, total, early=True, match_p=0.9)
+            if len(stream) < 30000: break
+        cab = cabfmt.build_cab([(3 | (wb << 8), [(stream, total)])], [(b"x.bin", total, 0, 0, 0x5A21, 0x6C43, 0x20)])
+        sc = scenario.Scn().file("in0.cab", cab); cab_ops(sc, 1, 4); out.append(Case("uninit:lzx-early-match", "cab", sc))
     for i in range(n):
         b = BitsMSB()
         types = [rng.choice([0, 1, 2, 3, 4, 7, 15]) for _ in range(6)]
